@@ -228,12 +228,10 @@ impl Sim {
                 }
             }
             Event::Begin(k) => {
-                // Open finding D26: a session begun before two write transactions have committed has
-                // no upper bound on its snapshot. Such a Begin is ignored (the session never exists), so
-                // neither generation nor minimisation can slip into that finding.
-                if self.commits_seen < 2 && !self.allow_d26 {
-                    self.stats.bump("begin_ignored_before_warm_up");
-                    return Ok(());
+                // (Finding D26 - a session begun before anything had committed had no upper bound on
+                // its snapshot - was repaired; a session may begin at any time, also as the first event.)
+                if self.commits_seen < 2 {
+                    self.stats.bump("sessions_begun_before_two_commits");
                 }
                 let out = self.eng.begin(*k);
                 self.stats.log(format!("{i} {} => {}", ev.short(), outcome_line(&out)));
